@@ -27,10 +27,23 @@ def make_scenarios(rng, tier):
                        {"op": "snapshot", "probe": names, "_active": [], "_done": [a, b]}]
         scs.append(sc)
         sid += 1
+    # the same pairing with FAILING rules next to the held one (pb fails, pc panics while pa is held at its gate): a call must
+    # not return — and hand its instance and data back — while one of its rules is still running
+    for i in range(0, len(METHODS), 2):
+        sc = {"id": sid, "min": 1, "max": 2, "model": 1 + (i // 2) % 4, "rules": rules_v(1, kinds={"pb": "fail", "pc": "panic"}), "steps": []}
+        names = ["pa", "pb", "pc"]
+        a, b = sid * 1000 + 1, sid * 1000 + 2
+        sc["steps"] = [req_step(a, METHODS[i], names, hold_at="pa"), req_step(b, METHODS[i + 1], names, hold_at="pa"),
+                       {"op": "sleep", "wait_ms": 20},
+                       {"op": "snapshot", "probe": names, "_active": [a, b], "_done": []},
+                       {"op": "release", "id": b}, {"op": "release", "id": a},
+                       {"op": "snapshot", "probe": names, "_active": [], "_done": [a, b]}]
+        scs.append(sc)
+        sid += 1
     return scs
 
 
-RULE = ("scenarios as C17 (overlap rounds and random walks over pool states) on pools (1,2),(2,3),(2,5) plus every one of the 24 wrapper methods paired on a (1,2) pool: max requests held at a gate inside their first rule while snapshots read every instance's data context by reflection; "
+RULE = ("scenarios as C17 (overlap rounds and random walks over pool states) on pools (1,2),(2,3),(2,5) plus every one of the 24 wrapper methods paired on a (1,2) pool, once with sound rules and once with a failing and a panicking rule next to the held one: max requests held at a gate inside their first rule while snapshots read every instance's data context by reflection; "
         "every request carries a unique id in its own injected object and under a unique key; rules echo the id into the returned values and into the request's object; "
         "checked inside Coq: the instances holding request keys are exactly the executing requests, one each; nothing of a returned request is left in any instance; returned maps contain only the caller's id and are unchanged when read again at the end; "
         "distinct non-trivial = snapshots taken while at least two requests were simultaneously inside a rule")
